@@ -95,36 +95,50 @@ def sleeps(ctx, f, cfg):
         slots = [b for b in f.impl_methods("RuleCheckSlot", "check") if "::%s::" % fam in b.path]
         if not slots:
             continue
-        b = slots[0]
+        b = f.view(f.raw(slots[0]))
         sl = Slicer(f, b)
-        sl_sites = [(bb, t) for bb, t in b.calls() if callee_is(t, "utils::time::sleep_for_ns", "sleep_for_ns")]
-        # find the match on the verdict inside the loop
+        # sleeps whose argument is the payload of the Wait verdict (the arm's binding, or verdict.nanos_to_wait())
+        good = set()
+        any_sleep = 0
+        for sb, st in b.calls():
+            if callee_is(st, "utils::time::sleep_for_ns", "sleep_for_ns"):
+                any_sleep += 1
+                aa = sl.of_operand(st["args"][0])
+                if (any("TokenResult::Wait" in x for x in aa if x.startswith("field:")) or any_atom(aa, "call:TokenResult::nanos_to_wait")) and any_atom(aa, "call:Controller::perform_checking") \
+                        or (any("TokenResult::Wait" in x for x in aa if x.startswith("field:")) and any(x.endswith("perform_checking") or x.endswith("can_pass_check") for x in aa if x.startswith("call:"))):
+                    good.add(sb)
+
+        def classify(atoms, op=None, b=b):
+            if op is not None and discr_of_call(b, op, "Iterator::next"):
+                return "iter"
+            if "discr" in atoms and any(x.endswith("perform_checking") for x in atoms if x.startswith("call:")):
+                return "verdict"
+            keep = sorted(short(a) for a in atoms if a.startswith(("field:core", "call:core")))
+            return "other:" + ",".join(keep[:6])
+        w = D.Walker(f, b, classify)
+        w.summarise_predicates = True
+        pcs = [bb for bb, t in b.calls() if callee_def(t).endswith("perform_checking")]
+        detail = {"sleep_sites": any_sleep, "sleep_with_payload": len(good), "verdict_sites": len(pcs)}
         ok = False
-        detail = {}
-        for bi, blk in enumerate(b.blocks):
-            t = blk["term"]
-            if blk["cleanup"] or not t or t["k"] != "switch":
-                continue
-            a = sl.of_operand(t["op"])
-            if "discr" in a and (any_atom(a, "call:perform_checking") or any(x.startswith("call:") and x.endswith("can_pass_check") for x in a)) and not any_atom(a, "call:Iterator::next") or \
-                    ("discr" in a and any(x.endswith(("perform_checking", "can_pass_check")) for x in a) and len(t["targets"]) >= 3):
-                wi = names.index("Wait")
-                tg = [x for v, x in t["targets"] if v == wi]
-                if not tg:
-                    continue
-                # every path from the Wait arm to the next iteration / return passes a sleep whose argument is the Wait payload
-                its = [x for x, tt in b.calls() if callee_is(tt, "Iterator::next")]
-                goals = set(its) | set(b.return_blocks())
-                good = []
-                for sb, st in sl_sites:
-                    aa = sl.of_operand(st["args"][0])
-                    if any("TokenResult::Wait.0" in x for x in aa):
-                        good.append(sb)
-                w = must_pass(b, tg, goals, good)
-                detail = {"sleep_sites": len(sl_sites), "sleep_with_payload": len(good), "path_without_sleep": fmt_path(b, w) if w else None}
-                ok = w is None and bool(good)
+        if pcs and good:
+            its = [x for x, tt in b.calls() if callee_is(tt, "Iterator::next")]
+            paths = []
+            for pc in pcs:
+                paths += w.walk(b.term(pc)["target"], lambda bb, env: ("next",) if bb in its else None)
+
+            def outcome(p, asg):
+                return "sleeps=%d" % sum(1 for x in p["blocks"] if x in good)
+
+            def expected(asg):
+                v = asg["disc"].get("verdict")
+                if not isinstance(v, int) or v >= len(names):
+                    return None
+                return "sleeps=1" if names[v] == "Wait" else "sleeps=0"
+            nr, ncon, mism = run_table(ctx, "C07.sleeps", b.path, cfg, paths, outcome, expected)
+            detail.update({"rows": nr, "constrained": ncon, "mismatches": mism[:3]})
+            ok = not mism and ncon >= 3
         n += 1
-        ctx.instance("C07.sleeps", b.path, detail, "Wait(n) arm -> sleep_for_ns(n) before the next controller / return", ok, cfg)
+        ctx.instance("C07.sleeps", b.path, detail, "Wait(n) verdict -> exactly one sleep_for_ns(n) before the next controller / the return; no sleep otherwise", ok, cfg)
         if not ok:
             ctx.violation("C07.sleeps", "C07.sleeps|" + fam, "%s slot: a Wait verdict does not hold the caller for the scheduled time: %s" % (fam, detail), b.loc(), config=cfg)
     ctx.floor("C07.sleeps", "slots with a Wait arm", n, 2)
